@@ -44,6 +44,8 @@ def run(ctx):
     r4(ctx)
     r5(ctx)
     r6(ctx)
+    rep.rule("C29.R10", "exported angular velocities are written in the inertial basis (A_IB @ B_Omega), like the basis vectors written next to them", 3)
+    r10_omega_basis(ctx)
     rep.rule("C29.R9", "the file name handed out for an export is the one that was tested (and, with a registry, recorded) as unused", 1)
     r9_unique_names(ctx)
     rep.rule("C29.R8", "lever arms handed to the point protocol in export methods are relative vectors (no uncancelled origin-based position)", 2)
@@ -477,6 +479,88 @@ def _origin_net(e, local, seen=frozenset(), depth=0):
     return None
 
 
+def r10_omega_basis(ctx):
+    """Every contribution writes its angular velocity `Omega` in the INERTIAL basis (A_IB @ B_Omega; the arrow is drawn in world coordinates next to ex,
+    ey, ez).  skew2ax(A_t @ A.T) is that vector, skew2ax(A.T @ A_t) is the body-fixed one (= B_Omega); they coincide exactly when the frame spins
+    about a fixed axis, which is all the shipped examples do."""
+    rep = ctx.rep
+    model = ctx.model
+    n = 0
+    done = set()
+    for ci in model.all_classes():
+        if "export" not in ci.methods or ci.rel.startswith(("cardillo/visualization/", "cardillo/system.py")):
+            continue
+        fn = ci.methods["export"]
+        C = f"{ci.rel}:{ci.qual}.export"
+        if C in done:
+            continue
+        done.add(C)
+        local = {}
+        for x in walk_no_nested(fn):
+            if isinstance(x, ast.Assign) and len(x.targets) == 1 and isinstance(x.targets[0], ast.Name):
+                local[x.targets[0].id] = x.value
+        vals = []
+        for w in walk_no_nested(fn):
+            if isinstance(w, ast.Call) and dotted(w.func) == "dict":
+                for k in w.keywords:
+                    if k.arg == "Omega":
+                        vals += (k.value.elts if isinstance(k.value, (ast.List, ast.Tuple)) else [k.value])
+
+        def is_T(e):
+            return isinstance(e, ast.Attribute) and e.attr == "T"
+
+        def is_rate(e):
+            s_ = norm_src(e)
+            return bool(__import__("re").search(r"_t(__)?\b|_t\(|_dot\b", s_)) and not is_T(e)
+
+        def basis(e, depth=0):
+            if depth > 4:
+                return None
+            if isinstance(e, ast.Name) and e.id in local:
+                return basis(local[e.id], depth + 1)
+            s_ = norm_src(e)
+            if isinstance(e, ast.BinOp) and isinstance(e.op, ast.MatMult):
+                l_, r_ = norm_src(e.left), norm_src(e.right)
+                if "A_IB" in l_ and not is_T(e.left) and "B_Omega" in r_:
+                    return "I"
+                if is_T(e.left) and "A_IB" in l_:
+                    return "B"
+                return None
+            if isinstance(e, ast.Call):
+                last = (dotted(e.func) or "").split(".")[-1]
+                if last == "Omega":
+                    return "I"
+                if last == "B_Omega":
+                    return "B"
+                if last == "skew2ax" and e.args:
+                    a = e.args[0]
+                    if isinstance(a, ast.Name) and a.id in local:
+                        a = local[a.id]
+                    if isinstance(a, ast.BinOp) and isinstance(a.op, ast.MatMult):
+                        L, R = a.left, a.right
+                        Ls = local.get(L.id, L) if isinstance(L, ast.Name) else L
+                        Rs = local.get(R.id, R) if isinstance(R, ast.Name) else R
+                        if is_T(L) and (is_rate(R) or is_rate(Rs)):
+                            return "B"
+                        if is_T(R) and (is_rate(L) or is_rate(Ls)):
+                            return "I"
+                return None
+            return None
+        for v in vals:
+            n += 1
+            b = basis(v)
+            if b == "I":
+                rep.ok("C29.R10", C, f"Omega = `{norm_src(v)[:60]}`: inertial basis")
+            elif b == "B":
+                rep.bad("C29.R10", C, v, f"the exported angular velocity `{norm_src(v)[:70]}` is the BODY-fixed vector (A^T A_t / B_Omega), every other contribution - and the drawn basis ex, ey, ez - "
+                        "uses the inertial one (A_IB @ B_Omega = skew2ax(A_t A^T)): the written Omega differs from the simulated angular velocity whenever the rotation does not leave its own "
+                        "axis fixed (precession, tilt)", f"{ci.rel}:{v.lineno}")
+            else:
+                rep.ok("C29.R10", C, f"Omega = `{norm_src(v)[:60]}`: basis not determinable (no verdict)", verdict="unknown", trivial=True)
+    if n < 3:
+        raise AnalysisError("C29.R10: fewer than 3 exported angular velocities found")
+
+
 def r9_unique_names(ctx):
     """One collection and one family of .vtu files per export: the name handed out by the uniqueness helper is new with respect to what the helper
     TESTS.  If the test is the file system (`<name>.pvd exists`) nothing has to be recorded; if it is a registry held by the exporter, the name
@@ -645,6 +729,11 @@ S2P = "cardillo/contacts/sphere2plane.py"
 MUTANTS += [
     dict(id="c29-r8-seed", canary=True, what="[seeded by sub-agent] Sphere2Plane.export: plane-side contact velocity with the origin-based contact position as lever arm", file=S2P,
          old="                self.frame.v_P(sol_i.t, B_r_CP=A_IB2.T @ r_QC2),\n", new="                self.frame.v_P(sol_i.t, B_r_CP=A_IB2.T @ (r_OP - n * (g_N + self.r))),\n", expect="C29.R8"),
+]
+FRM = "cardillo/discrete/frame.py"
+MUTANTS += [
+    dict(id="c29-r10-seed", canary=True, what="[seeded by sub-agent] Frame.export writes skew2ax(A^T A_t), the body-fixed angular velocity", file=FRM,
+         old="            Omega=[self.A_IB(sol_i.t) @ self.B_Omega(sol_i.t)],\n", new="            Omega=[skew2ax(self.A_IB__(sol_i.t).T @ self.A_IB_t__(sol_i.t))],\n", expect="C29.R10"),
 ]
 MUTANTS += [
     dict(id="c29-r9-seed", canary=True, what="[seeded by sub-agent] unique-name helper keeps a registry but records the requested name instead of the issued one", file=VTK,
